@@ -926,6 +926,107 @@ def _or_default(stmts):
     return out
 
 
+def _unroll_literal_comprehensions(fnode):
+    """[E(v) for v in (a1, ..., ak) if C(v)]  over a literal tuple/list of at most 6 elements  ->
+    ([E(a1)] if C(a1) else []) + ... ; without a filter simply [E(a1), ..., E(ak)].  The elements are evaluated in the same
+    order; each ai must be a name / attribute chain / constant / tuple of those (substituting it several times is harmless)."""
+
+    def simple(e):
+        if isinstance(e, (ast.Name, ast.Constant)):
+            return True
+        if isinstance(e, ast.Attribute):
+            return simple(e.value)
+        if isinstance(e, ast.Tuple):
+            return all(simple(x) for x in e.elts)
+        return False
+
+    class T(ast.NodeTransformer):
+        def visit_ListComp(self, node):
+            self.generic_visit(node)
+            if len(node.generators) != 1:
+                return node
+            g = node.generators[0]
+            if not (isinstance(g.iter, (ast.Tuple, ast.List)) and 1 <= len(g.iter.elts) <= 6 and all(simple(e) for e in g.iter.elts)):
+                return node
+            if isinstance(g.target, ast.Name):
+                names = [g.target.id]
+            elif isinstance(g.target, ast.Tuple) and all(isinstance(x, ast.Name) for x in g.target.elts):
+                names = [x.id for x in g.target.elts]
+                if not all(isinstance(e, ast.Tuple) and len(e.elts) == len(names) for e in g.iter.elts):
+                    return node
+            else:
+                return node
+            pieces = []
+            for e in g.iter.elts:
+                vals = [e] if isinstance(g.target, ast.Name) else list(e.elts)
+                m = dict(zip(names, vals))
+
+                class S(ast.NodeTransformer):
+                    def visit_Name(s_, n):
+                        if isinstance(n.ctx, ast.Load) and n.id in m:
+                            return copy.deepcopy(m[n.id])
+                        return n
+
+                elt = S().visit(copy.deepcopy(node.elt))
+                conds = [S().visit(copy.deepcopy(c)) for c in g.ifs]
+                item = ast.List(elts=[elt], ctx=ast.Load())
+                if conds:
+                    test = conds[0] if len(conds) == 1 else ast.BoolOp(op=ast.And(), values=conds)
+                    item = ast.IfExp(test=test, body=item, orelse=ast.List(elts=[], ctx=ast.Load()))
+                pieces.append(item)
+            out = pieces[0]
+            for p_ in pieces[1:]:
+                if isinstance(out, ast.List) and isinstance(p_, ast.List):
+                    out = ast.List(elts=out.elts + p_.elts, ctx=ast.Load())
+                else:
+                    out = ast.BinOp(left=out, op=ast.Add(), right=p_)
+            return ast.copy_location(out, node)
+
+    return T().visit(fnode)
+
+
+def _append_seq_to_concat(stmts):
+    """x = [] ; x.append(e1) ; if c: x.append(e2) ; ...   ->   x = [e1] + ([e2] if c else []) + ...   (same evaluation order)"""
+    for s in stmts:
+        _recurse(s, _append_seq_to_concat)
+    i = 0
+    while i < len(stmts):
+        s = stmts[i]
+        if isinstance(s, ast.Assign) and len(s.targets) == 1 and isinstance(s.targets[0], ast.Name) and isinstance(s.value, ast.List) and not s.value.elts:
+            x = s.targets[0].id
+            pieces = []
+            j = i + 1
+
+            def app(st):
+                if isinstance(st, ast.Expr) and isinstance(st.value, ast.Call) and isinstance(st.value.func, ast.Attribute) and st.value.func.attr == "append" \
+                        and isinstance(st.value.func.value, ast.Name) and st.value.func.value.id == x and len(st.value.args) == 1 and not st.value.keywords \
+                        and not any(isinstance(n, ast.Name) and n.id == x for n in ast.walk(st.value.args[0])):
+                    return st.value.args[0]
+                return None
+
+            while j < len(stmts):
+                st = stmts[j]
+                a = app(st)
+                if a is not None:
+                    pieces.append(ast.List(elts=[a], ctx=ast.Load()))
+                elif isinstance(st, ast.If) and not st.orelse and len(st.body) == 1 and app(st.body[0]) is not None \
+                        and not any(isinstance(n, ast.Name) and n.id == x for n in ast.walk(st.test)):
+                    pieces.append(ast.IfExp(test=st.test, body=ast.List(elts=[app(st.body[0])], ctx=ast.Load()), orelse=ast.List(elts=[], ctx=ast.Load())))
+                else:
+                    break
+                j += 1
+            if len(pieces) >= 2 and any(isinstance(p_, ast.IfExp) for p_ in pieces):
+                out = pieces[0]
+                for p_ in pieces[1:]:
+                    if isinstance(out, ast.List) and isinstance(p_, ast.List):
+                        out = ast.List(elts=out.elts + p_.elts, ctx=ast.Load())
+                    else:
+                        out = ast.BinOp(left=out, op=ast.Add(), right=p_)
+                stmts[i:j] = [ast.copy_location(ast.Assign(targets=s.targets, value=out), s)]
+        i += 1
+    return stmts
+
+
 def _extend_to_concat(stmts):
     """x = [..] ; x.extend(<comprehension / display>)   ->   x = [..] + [..]   (x is a fresh list both times)"""
     out = []
@@ -1367,7 +1468,9 @@ def _canon_once(fnode):
     f.body = _or_default(f.body)
     f.body = _tuple_split(f.body)
     f.body = _try_rethrow(f.body)
+    f = _unroll_literal_comprehensions(f)
     f.body = _aug_append(f.body)
+    f.body = _append_seq_to_concat(f.body)
     f.body = _extend_to_concat(f.body)
     f.body = _while_true(f.body)
     f.body = _ifexp_to_stmt(f.body)
